@@ -256,9 +256,11 @@ def assigned_vars(stmts):
 
 # ------------------------------------------------------------------------------------------------- one function
 class Fn:
-    def __init__(self, name, node, cls, known):
-        self.name, self.node, self.cls = name, node, cls
-        self.known = known            # translated functions: python name -> (coq name, [param types], ret type, [self params])
+    def __init__(self, name, node, cls, known, rel=None):
+        self.name, self.node, self.cls, self.rel = name, node, cls, rel
+        self.mut = set()              # local variables holding a list/dict created HERE by a display `[]` / `{}`
+        self.known = known            # translated module-level functions: python name -> (coq name, [param types],
+                                      #                                                     ret type, file)
         self.tmp = 0
         self.tvars = set()
         self.self_params = []         # attrs of self used, in order of first use
@@ -405,6 +407,8 @@ class Fn:
         if e.keywords:
             bad(e, "keyword arguments")
         f = e.func
+        if isinstance(f, ast.Name) and f.id in env:
+            bad(e, "call of a local variable (a builtin or function name is shadowed)")
         if isinstance(f, ast.Name):
             if f.id == "len" and len(e.args) == 1:
                 p, a, ta = self.expr(e.args[0], env)
@@ -443,8 +447,10 @@ class Fn:
             if f.id == "slice" and len(e.args) == 1 and isinstance(e.args[0], ast.Constant) and e.args[0].value is None:
                 return [], "PySliceAll", "key"
             if f.id in self.known:
-                coq, ptys, rty, selfp = self.known[f.id]
-                if selfp or len(ptys) != len(e.args):
+                coq, ptys, rty, rel = self.known[f.id]
+                if rel != self.rel:
+                    bad(e, "call of a translated function that lives in another module (name resolution not modelled)")
+                if len(ptys) != len(e.args):
                     bad(e, "call of a translated function with the wrong arity")
                 ps, ts = [], []
                 for x, pt in zip(e.args, ptys):
@@ -475,7 +481,9 @@ class Fn:
         env2 = dict(env)
         env2[acc] = ("dict", None, None) if dictcomp else ("list", None)
         holder = {}
+        self.mut.add(acc)
         pre = [("let", "v_" + acc, "[]")] + self.stmts_pre([loop], env2, holder)
+        self.mut.discard(acc)            # the finished tuple / dict is never mutated again (fresh name, used once)
         return pre, "v_" + acc, holder["env"][acc]
 
     # ---------------------------------------------------------------- statements
@@ -535,6 +543,12 @@ class Fn:
                 pre += p
         return pre
 
+    def no_alias(self, value, node):
+        """A mutable local (list/dict display) may not get a second name or be stored inside another container: the
+        translation copies values, Python would share the object."""
+        if isinstance(value, ast.Name) and value.id in self.mut:
+            bad(node, "aliasing of a mutable local list/dict")
+
     def bind_var(self, env, name, ty, node):
         env = dict(env)
         env[name] = unify(None, ty, node) if name not in env else self.reassign(env[name], ty, node)
@@ -551,6 +565,11 @@ class Fn:
             t = s.targets[0]
             if isinstance(t, ast.Name):
                 p, a, ta = self.expr(s.value, env)
+                self.no_alias(s.value, s)
+                if isinstance(s.value, (ast.List, ast.Dict)):
+                    self.mut.add(t.id)
+                else:
+                    self.mut.discard(t.id)
                 return self.bind_var(env, t.id, ta, s), p + [("let", "v_" + t.id, a)], False
             if isinstance(t, ast.Tuple) and isinstance(s.value, ast.Tuple) and len(t.elts) == len(s.value.elts) \
                     and all(isinstance(x, ast.Name) for x in t.elts):
@@ -559,6 +578,12 @@ class Fn:
                     p, a, ta = self.expr(x, env)
                     pre += p
                     terms.append((a, ta))
+                for x, v in zip(t.elts, s.value.elts):
+                    self.no_alias(v, s)
+                    if isinstance(v, (ast.List, ast.Dict)):
+                        self.mut.add(x.id)
+                    else:
+                        self.mut.discard(x.id)
                 tmps = []
                 for (a, ta), x in zip(terms, t.elts):         # all right-hand sides are evaluated before any binding
                     tm = "v_" + self.fresh()
@@ -570,8 +595,9 @@ class Fn:
                 return env, pre, False
             if isinstance(t, ast.Subscript) and isinstance(t.value, ast.Name):
                 d = t.value.id
-                if d not in env or not (isinstance(env[d], tuple) and env[d][0] == "dict"):
-                    bad(s, "item assignment on something that is not a dict variable")
+                if d not in env or d not in self.mut or not (isinstance(env[d], tuple) and env[d][0] == "dict"):
+                    bad(s, "item assignment on something that is not a dict created in this function")
+                self.no_alias(s.value, s)
                 pk, k, tk = self.expr(t.slice, env)
                 pv, v, tv = self.expr(s.value, env)          # Python evaluates the value first, then the key
                 if pk and pv:
@@ -599,8 +625,9 @@ class Fn:
                 and s.value.func.attr == "append" and isinstance(s.value.func.value, ast.Name) \
                 and len(s.value.args) == 1 and not s.value.keywords:
             x = s.value.func.value.id
-            if x not in env or not (isinstance(env[x], tuple) and env[x][0] == "list"):
-                bad(s, "append on something that is not a list variable")
+            if x not in env or x not in self.mut or not (isinstance(env[x], tuple) and env[x][0] == "list"):
+                bad(s, "append on something that is not a list created in this function")
+            self.no_alias(s.value.args[0], s)
             p, a, ta = self.expr(s.value.args[0], env)
             if env[x][1] == "key" and ta == "int":
                 a, ta = f"(PyInt {a})", "key"
@@ -722,6 +749,8 @@ class Fn:
         got = unify(self.ret_ty, rty, n)
         coq = "py_" + self.name.replace(".", "_").lstrip("_") if not self.name.startswith("_") else "py" + self.name
         coq = coq.replace(".", "_")
+        if self.mut & set(env):
+            bad(n, "a parameter is treated as a mutable local")
         sp = [(f"self_{x}", SELF_ATTRS[self.cls][x]) for x in self.self_params]
         binders = "".join(f" {{{v} : Type}}" for v in sorted(self.tvars))
         binders += "".join(f" ({nm} : {coq_type(ty)})" for nm, ty in sp)
@@ -747,20 +776,42 @@ def find_function(tree, qual):
     return (node, cls) if isinstance(node, ast.FunctionDef) else (None, None)
 
 
-def translate(repo):
-    """-> {obligation name: {"coq": name or None, "text": definition or None, "error": message or None}}"""
+def top_level_bindings(tree, name):
+    """How many statements of the module bind `name` (def / class / assignment / import), at any nesting of if/try."""
+    n = 0
+    for node in ast.walk(tree):
+        if isinstance(node, (ast.FunctionDef, ast.AsyncFunctionDef, ast.ClassDef)) and node.name == name \
+                and node in tree.body:
+            n += 1
+        elif isinstance(node, (ast.Import, ast.ImportFrom)):
+            n += sum(1 for a in node.names if (a.asname or a.name.split(".")[0]) == name)
+        elif isinstance(node, ast.Global) and name in node.names:
+            n += 1
+    for node in tree.body:
+        if isinstance(node, (ast.Assign, ast.AnnAssign, ast.AugAssign)):
+            tg = node.targets if isinstance(node, ast.Assign) else [node.target]
+            n += sum(1 for t in tg for x in ast.walk(t) if isinstance(x, ast.Name) and x.id == name)
+    return n
+
+
+def translate(repo, sources=None):
+    """-> {obligation name: {"coq": name or None, "text": definition or None, "error": message or None}}
+    `sources` (file -> text) replaces reading the repo (self-test)."""
     repo = Path(repo)
     out, known, trees = {}, {}, {}
     for name, rel, qual in TARGETS:
         try:
             if rel not in trees:
-                trees[rel] = ast.parse((repo / rel).read_text())
+                trees[rel] = ast.parse(sources[rel] if sources is not None else (repo / rel).read_text())
             node, cls = find_function(trees[rel], qual)
             if node is None:
                 raise TranslateError(f"{rel}: function {qual} not found")
-            fn = Fn(name, node, cls, known)
+            if cls is None and top_level_bindings(trees[rel], qual) != 1:
+                raise TranslateError(f"{rel}: the module binds the name {qual} more than once")
+            fn = Fn(name, node, cls, known, rel)
             coq, text, ptys, rty, selfp = fn.translate()
-            known[qual.split(".")[-1]] = (coq, ptys, rty, selfp)
+            if cls is None:
+                known[qual] = (coq, ptys, rty, rel)
             out[name] = {"coq": coq, "text": text, "error": None, "src": f"{rel}:{qual}:{node.lineno}"}
         except (TranslateError, OSError, SyntaxError, RecursionError) as e:      # fail closed
             out[name] = {"coq": None, "text": None, "error": f"{type(e).__name__}: {e}"[:300], "src": f"{rel}:{qual}"}
@@ -781,15 +832,81 @@ def emit_coq(res, repo):
     return "\n".join(lines) + "\n"
 
 
+# (function whose translation must FAIL, file, text to replace, replacement): constructs outside the subset.  Each is
+# applied to the real source text; the translator accepting one of them means it no longer fails closed.
+REJECTED = [
+    ("shape_to_strides", MAPSPEC, "product *= shape[j]", "product -= shape[j]"),
+    ("shape_to_strides", MAPSPEC, "product *= shape[j]", "product *= shape[-j]"),
+    ("shape_to_strides", MAPSPEC, "product *= shape[j]", "product *= shape[j] ** 2"),
+    ("shape_to_strides", MAPSPEC, "product *= shape[j]", "product = product * shape[j] / 1"),
+    ("shape_to_strides", MAPSPEC, "    strides = []\n", "    strides = []\n    alias = strides\n"),
+    ("shape_to_strides", MAPSPEC, "        strides.append(product)", "        shape.append(product)"),
+    ("shape_to_strides", MAPSPEC, "    return tuple(strides)", "    return tuple(strides[::-1])"),
+    ("shape_to_strides", MAPSPEC, "    return tuple(strides)", "    return tuple(strides), product"),
+    ("shape_to_strides", MAPSPEC, "        product = 1\n", "        product = 1\n        if i > 5:\n            break\n"),
+    ("shape_to_strides", MAPSPEC, "        product = 1\n", "        product = 1\n        if i == 7:\n            return ()\n"),
+    ("shape_to_strides", MAPSPEC, "    strides = []\n", "    strides = []\n    len = max\n"),
+    ("shape_to_strides", MAPSPEC, "def shape_to_strides(shape: tuple[int, ...])", "def shape_to_strides(shape: tuple[int, ...], k=2)"),
+    ("shape_to_strides", MAPSPEC, "def shape_to_strides(shape: tuple[int, ...])", "def shape_to_strides(shape)"),
+    ("shape_to_strides", MAPSPEC, "\n@dataclass(frozen=True, slots=True)\nclass ArraySpec",
+     "\nshape_to_strides = None\n\n@dataclass(frozen=True, slots=True)\nclass ArraySpec"),
+    ("_shape_to_key", MAPSPEC, "(linear_index // stride) % dim for", "divmod(linear_index // stride, dim)[1] for"),
+    ("_shape_to_key", MAPSPEC, "(linear_index // stride) % dim for", "(linear_index // stride) % dim if dim else 0 for"),
+    ("_shape_to_key", MAPSPEC, "zip(shape_to_strides(shape), shape)", "zip(shape_to_strides(shape), shape, strict=True)"),
+    ("_shape_to_key", MAPSPEC, "zip(shape_to_strides(shape), shape)", "zip(np.cumprod(shape), shape)"),
+    ("select_by_mask", BASE, "            index1 += 1", "            index1 += m"),
+    ("select_by_mask", BASE, "    for m in mask:", "    for m in reversed(mask):"),
+    ("select_by_mask", BASE, "        if m:", "        if m and index1 < 3:"),
+    ("select_by_mask", BASE, "    return tuple(result)", "    return tuple(result) if mask else tuple1"),
+    ("select_by_mask", BASE, "result.append(tuple1[index1])", "result.append(tuple1[index1]); index2 = index2 or 0"),
+    ("external_shape_from_mask", SHAPES, "tuple(s for s, m in zip(shape, mask) if m)", "tuple(s for s, m in zip(shape, mask) if s)"),
+    ("internal_shape_from_mask", SHAPES, "tuple(s for s, m in zip(shape, mask) if not m)", "tuple(s for m in mask for s in shape if not m)"),
+    ("MapSpec.output_key", MAPSPEC, "return _shape_to_key(shape, linear_index)\n\n    def input_keys",
+     "return self._key(shape, linear_index)\n\n    def input_keys"),
+    ("MapSpec.input_keys", MAPSPEC, "ids = dict(zip(self.external_indices, key))", "ids = dict(zip(self.output_indices, key))"),
+    ("MapSpec.input_keys", MAPSPEC, "else ids[ax] for ax in x.axes", "else ids.get(ax) for ax in x.axes"),
+    ("MapSpec.input_keys", MAPSPEC, "for x in self.inputs\n", "for x in self.inputs if x.axes\n"),
+]
+
+
+def selftest(repo):
+    """-> list of problems: out-of-subset variants of the real source that the translator ACCEPTS (must be empty)."""
+    repo = Path(repo)
+    base = {rel: (repo / rel).read_text() for rel in {t[1] for t in TARGETS}}
+    if any(r["error"] for r in translate(repo, base).values()):
+        return []                       # the unchanged source is already rejected: reported through the obligations
+    problems = []
+    for fn, rel, old, new in REJECTED:
+        if old not in base[rel]:
+            continue                    # the source moved on; the obligation proofs decide
+        src = dict(base)
+        src[rel] = base[rel].replace(old, new, 1)
+        try:
+            r = translate(repo, src)
+        except Exception as e:  # noqa: BLE001
+            problems.append(f"translator crashed on `{new[:50]}`: {type(e).__name__}: {e}")
+            continue
+        if r[fn]["error"] is None:
+            problems.append(f"translator accepts `{new.strip()[:60]}` in {fn}")
+    return problems
+
+
 def main(argv):
     repo = Path("/repo")
     outp = None
     it = iter(argv)
+    st = False
     for a in it:
         if a == "--repo":
             repo = Path(next(it))
         elif a == "--out":
             outp = Path(next(it))
+        elif a == "--selftest":
+            st = True
+    if st:
+        probs = selftest(repo)
+        print("\n".join(probs) if probs else f"selftest ok ({len(REJECTED)} out-of-subset variants rejected)")
+        return 1 if probs else 0
     res = translate(repo)
     txt = emit_coq(res, repo)
     if outp:
